@@ -1,7 +1,7 @@
 SPECIFICATION Spec
 CONSTANTS
   U = "quick"
-  Kind = "dict"
+  Kind = "obj"
   InitPartial = FALSE
   Mirror = FALSE
   MaxLevel = 1
